@@ -2,6 +2,7 @@ import Proofs.PrebuildChain
 import Proofs.PrebuildTyping
 import Proofs.PrebuildMech
 import PyxModel.Prebuild.Recipe
+import Proofs.PrebuildFlatStmt   -- FLAT: the flat population model
 
 /-!
   C06 — Prebuilt instances form a well-formed, correctly typed population.
@@ -320,5 +321,61 @@ example : typeWalk demoT demoS =
     [("V_LIN", some "integer"), ("V_TVL", some "integer"), ("V_LBO", some "boolean"), ("V_LIN", some "integer"),
      ("V_TVL", some "integer"), ("V_TVL", some "integer"), ("V_TVL", some "integer"), ("V_LST", some "string"),
      ("V_TVL", some "string"), ("V_TVL", some "integer"), ("V_TVL", some "inst<Event>")] := by decide
+
+/-! ### FLAT — well-formedness of the flat population (PyxModel/Prebuild/Flat.lean), VALUE level only
+
+  Full statements (NOT proved; decided on the real population by the direct predicate of harness/prop_C06.py and, for
+  the modelled subset, by the row-by-row correspondence of harness/flat_pop.py): every ACT_SMT of
+  `prebuildFlat fc a` has exactly one R603 subtype row; R661 restricted to a block is one chain in source order;
+  blocks nest as a tree below the outer block; no link field dangles.
+  Proved (any expression of `coreE`, any nesting depth, from any sound builder state): the rows one expression adds are
+  appended (nothing earlier changes), are V_VAL rows and R801 subtype rows only (no statement / block / variable
+  row), every subtype row among them names a V_VAL created by this expression or an operand of it and lies AFTER
+  that V_VAL (`TSv`), and the answered instance is a V_VAL row. -/
+section Flat
+open Pyx.Prebuild.Flat
+
+theorem value_rows_wellformed_partial (fc : FCtx) (e : Expr) (st : St) (hc : coreE e = true) (hs : SymOK st)
+    (ht : TSv st.pop) (hok : (buildExpr fc e st).2.ok = true) :
+    (∃ d : List Flat.Row, (buildExpr fc e st).2.pop = st.pop ++ d ∧ szV e + 1 ≤ d.length ∧
+      (∀ r ∈ d, ∀ k, r.valOf = some k → st.pop.length ≤ k) ∧
+      (∀ r ∈ d, r.smtOf = none ∧ r.varOf = none ∧ (∀ b q, r ≠ .smt b q) ∧ (∀ o, r ≠ .blk o))) ∧
+    TSv (buildExpr fc e st).2.pop ∧
+    (∃ b, (buildExpr fc e st).2.pop[(buildExpr fc e st).1]? = some (.val b)) ∧
+    (buildExpr fc e st).2.scopes = st.scopes :=
+  let h := buildExpr_spec fc e st hc hs ht hok
+  ⟨h.grows, h.tsv, h.isVal, h.scopes⟩
+
+example : ∃ b, (buildExpr { ees := [], classes := [] } (.bin (.int "1") "+" (.un "-" (.real "2.5")))
+      { pop := [.blk true], scopes := [⟨.blk 0, []⟩] }).2.pop[
+      (buildExpr { ees := [], classes := [] } (.bin (.int "1") "+" (.un "-" (.real "2.5")))
+      { pop := [.blk true], scopes := [⟨.blk 0, []⟩] }).1]? = some (Flat.Row.val b) :=
+  (value_rows_wellformed_partial { ees := [], classes := [] } (.bin (.int "1") "+" (.un "-" (.real "2.5")))
+    { pop := [.blk true], scopes := [⟨.blk 0, []⟩] } (by decide)
+    (by intro n v h; simp [findSym, List.lookup] at h)
+    (by intro i r k hi hr
+        have := List.mem_of_getElem? hi
+        simp at this; subst this; simp [Flat.Row.valOf] at hr)
+    (by decide)).2.2.1
+
+/-- BODY level, sub-subset `coreB` (statement lists of return, break, continue, control stop, create without variable,
+    delete, relate / unrelate (+ using); no nested block): in the population of a whole body every key that is
+    searched backwards — the supertype an R603 / R801 subtype row names, Block_ID (R602) and Previous_Statement_ID
+    (R661) of an ACT_SMT, the `if` of an ACT_EL / ACT_E (R682 / R683) — names a row created EARLIER: it exists (no
+    dangling key) and the successor relation has no cycle.
+    MISSING for the full statements: exactly-one-subtype as a count, the R661 chain as a list in source order, the block
+    tree, the forward links (value / variable operands), and the statements outside `coreB`. -/
+theorem population_keys_wellformed_partial (fc : FCtx) (a : Block) (hc : coreB a = true)
+    (hok : okAll fc none a bodySt = true) :
+    ∀ (i : Nat) (r : Flat.Row), (prebuildFlat fc a)[i]? = some r →
+      (∀ k, r.valOf = some k → k < i) ∧ (∀ k, r.smtOf = some k → k < i) ∧ (∀ k ∈ skeys r, k < i) :=
+  prebuildFlat_ts fc a hc hok
+
+example : ∀ k ∈ skeys ((prebuildFlat { ees := [], classes := ["DOG"] }
+      (.cons (.createNV "DOG") (.cons (.ret (some (.int "1"))) (.cons .brk .nil))))[5]?.getD (.blk false)), k < 5 :=
+  (population_keys_wellformed_partial { ees := [], classes := ["DOG"] }
+    (.cons (.createNV "DOG") (.cons (.ret (some (.int "1"))) (.cons .brk .nil))) (by decide) (by decide) 5 _ (by decide)).2.2
+
+end Flat
 
 end PyxProps.C06
